@@ -50,7 +50,8 @@ def r1_balance(run, F):
         a, b = mx.summary.get(p), mn.summary.get(p)
         n += 1
         label = p.split(" as ")[0].replace("<alpha::common::", "").replace("<", "") + ("::closure" + p.split("{closure")[1] if "{closure" in p else "")
-        run.ob("R1-SCOPE-BALANCE", label[-70:], a == 0 and b == 0 and not mx.unbounded and not mn.unbounded and not gx and not gn,
+        unb = set(u[0] for u in mx.unbounded) | set(u[0] for u in mn.unbounded)
+        run.ob("R1-SCOPE-BALANCE", label[-70:], a == 0 and b == 0 and p not in unb and p not in gx and p not in gn,
                F.where(F.lib.bodies[p]), "push_scope/pop_scope balance must be 0 on every path (max %s, min %s)" % (a, b))
     run.require(n >= 15, "too few functions in the balance region (%d)" % n)
     # the impls that open a scope
